@@ -135,3 +135,15 @@ Proof. exact grad_idevice_real. Qed.
 Theorem C01_q_positive_below_upper_bound : forall a b (s : list R),
   (forall i, (i < List.length s)%nat -> 0 <= pnth a i /\ (lo b i = hi b i \/ lo b i <= nth i s 0 < hi b i)) -> q_positive a b s.
 Proof. exact q_positive_interior. Qed.
+
+(* ---- tie T at class level: the deriv methods regenerated from the NumPy source (Gen/Classes.v) are the model marginal costs ---- *)
+From DK.Gen Require Import Classes.
+From DK.Proofs Require Import GenClasses.
+Theorem C01_source_device_deriv : forall n (s p : list R), Device_deriv (A:=R) n s p = dev_deriv n p.
+Proof. exact gen_device_deriv. Qed.
+Theorem C01_source_cdevice_deriv : forall n a b (s p : list R), CDevice_deriv (A:=R) n a b s p = cdev_deriv n a p.
+Proof. exact gen_cdevice_deriv. Qed.
+Theorem C01_source_idevice_deriv : forall n a b c bnd (s p : list R), IDevice_deriv (A:=R) n a b c bnd s p = idev_deriv a b c bnd s p.
+Proof. exact gen_idevice_deriv. Qed.
+Theorem C01_source_idevice2_deriv : forall n pl ph bnd (s p : list R), IDevice2_deriv (A:=R) n pl ph bnd s p = idev2_deriv pl ph bnd s p.
+Proof. exact gen_idevice2_deriv. Qed.
